@@ -272,29 +272,31 @@ func (c *Ctx) callFunction(st *State, fn *ssa.Function, args []Value) (*State, V
 		}
 		cur := work[mi]
 		work = append(work[:mi], work[mi+1:]...)
-		// merge all states with the same key
+		// cluster the states with the same key: merge what is mergeable, run the rest separately
+		clusters := []*FState{cur}
 		var rest []*FState
-		var pending []*FState
 		for _, w := range work {
-			if keyEq(w.key, cur.key) {
-				if m := c.mergeF(cur, w); m != nil {
-					cur = m
-				} else {
-					pending = append(pending, w)
-				}
-			} else {
+			if !keyEq(w.key, cur.key) {
 				rest = append(rest, w)
+				continue
+			}
+			merged := false
+			for ci, cl := range clusters {
+				if m := c.mergeF(cl, w); m != nil {
+					clusters[ci] = m
+					merged = true
+					break
+				}
+			}
+			if !merged {
+				clusters = append(clusters, w)
 			}
 		}
 		work = rest
-		// states that could not be merged are run one after the other
-		todo := append([]*FState{cur}, pending...)
-		for _, f := range todo {
-			succs, ret := c.execBlock(f)
+		for _, f := range clusters {
+			succs, rr := c.execFrom(f, 0)
 			work = append(work, succs...)
-			if ret != nil {
-				rets = append(rets, *ret)
-			}
+			rets = append(rets, rr...)
 		}
 	}
 	if len(rets) == 0 {
@@ -332,18 +334,23 @@ func (c *Ctx) callWithEnv(st *State, fn *ssa.Function, args []Value, env []Value
 	return c.callFunction(st, fn, args)
 }
 
-func (c *Ctx) execBlock(fs *FState) ([]*FState, *retRec) {
+// execFrom executes the instructions of fs's block starting at index start (relative to the first non-phi
+// instruction). An instruction may fork the state (c.forks); every fork runs the rest of the block on its own.
+func (c *Ctx) execFrom(fs *FState, start int) ([]*FState, []retRec) {
 	fn := fs.fi.fn
 	b := fn.Blocks[fs.block]
-	c.stBlocks++
-	if fs.block == 0 && c.pendingEnv != nil {
-		for i, fv := range fn.FreeVars {
-			fs.regs[fs.fi.regIdx[fv]] = c.pendingEnv[i]
+	if start == 0 {
+		c.stBlocks++
+		if fs.block == 0 && c.pendingEnv != nil {
+			for i, fv := range fn.FreeVars {
+				fs.regs[fs.fi.regIdx[fv]] = c.pendingEnv[i]
+			}
+			c.pendingEnv = nil
 		}
-		c.pendingEnv = nil
 	}
 	instrs := b.Instrs[fs.fi.nphis[fs.block]:]
-	for _, in := range instrs {
+	for ii := start; ii < len(instrs); ii++ {
+		in := instrs[ii]
 		c.stInstr++
 		if c.stepLimit > 0 && c.stInstr > c.stepLimit {
 			panic(engineErr("UNWIND step budget exhausted"))
@@ -361,7 +368,7 @@ func (c *Ctx) execBlock(fs *FState) ([]*FState, *retRec) {
 			}
 			var out []*FState
 			tOK, fOK := true, true
-			if c.eagerBranch {
+			if c.eagerBranch || fs.spec {
 				tOK = c.feasible(fs.st, cond)
 				fOK = !tOK || c.feasible(fs.st, c.tt.Not(cond))
 			}
@@ -389,14 +396,30 @@ func (c *Ctx) execBlock(fs *FState) ([]*FState, *retRec) {
 				}
 				val = tu
 			}
-			return nil, &retRec{fs.st, val}
+			return nil, []retRec{{fs.st, val}}
 		case *ssa.Panic:
 			c.obligation(fs.st, c.tt.T, "panic", "panic:"+fn.Name(), "explicit panic in "+fn.String()+" at "+c.pos(in))
 			return nil, nil
 		default:
+			saved := c.forks
+			c.forks = nil
 			fs = c.step(fs, in)
+			forks := c.forks
+			c.forks = saved
+			var succs []*FState
+			var rets []retRec
+			for _, f := range forks {
+				c.stStates++
+				s2, r2 := c.execFrom(f, ii+1)
+				succs = append(succs, s2...)
+				rets = append(rets, r2...)
+			}
 			if fs == nil {
-				return nil, nil
+				return succs, rets
+			}
+			if len(forks) > 0 {
+				s2, r2 := c.execFrom(fs, ii+1)
+				return append(succs, s2...), append(rets, r2...)
 			}
 		}
 	}
@@ -1637,6 +1660,8 @@ func ubRec(t *Term, d int) uint64 {
 			return a
 		}
 		return b
+	case OpConcat:
+		return ubRec(t.args[0], d+1)<<uint(t.args[1].w) | ubRec(t.args[1], d+1)
 	}
 	return mask(t.w)
 }
